@@ -92,7 +92,7 @@ func vq2DrawDataOpt(t *rapid.T, setFields, maxBits int) vq2DataOpt {
 		Int:       rapid.IntRange(0, 9).Draw(t, "int?") < 6,
 		Mutex:     rapid.IntRange(0, 9).Draw(t, "mutex?") < 4,
 		Bool:      rapid.IntRange(0, 9).Draw(t, "bool?") < 3,
-		MaxBits:   maxBits, RowsLo: 2, RowsHi: 4,
+		MaxBits:   maxBits, RowsLo: 2, RowsHi: 3,
 	}
 }
 
@@ -111,11 +111,12 @@ func vq2ExprClasses(c *vkit.Case, e *vq2Expr, ev *vq2Eval, skipped bool) (nontri
 	c.ClassIf(multi, "operandsIn>=2shards")
 	c.ClassIf(ev.carry, "shiftCarriesOverShardEdge")
 	c.ClassIf(ev.edge, "shiftCrossesContainerEdge")
-	c.ClassIf(ev.notGap, "notOverShardWithoutExistence")
+	c.ClassIf(ev.notGap, "notWhereAShardHasNoOperandBits")
 	c.ClassIf(ev.mustErr, "notWithoutTracking(error expected)")
 	c.ClassIf(ev.mayErr, "missingField")
 	c.ClassIf(skipped, "skipped:D18")
 	c.ClassIf(len(ev.set) == 0, "emptyResult")
+	c.ClassIf(len(ev.set) > 0 && d >= 2, "nonEmptyResultDepth>=2")
 	return !skipped && !ev.mustErr && ((d >= 2 && multi) || ev.edge || ev.carry || ev.notGap)
 }
 
@@ -125,7 +126,7 @@ func TestVerifC15_Expr(t *testing.T) {
 	env := vq2Start()
 	defer env.Close()
 	rapid.Check(t, func(t *rapid.T) {
-		m, cols, ops := vq2GenData(t, vq2DrawDataOpt(t, 2, 10))
+		m, cols, ops := vq2GenData(t, vq2DrawDataOpt(t, 2, 14))
 		idx := env.create(t, "c15e", m)
 		defer env.drop(idx)
 		loadText := vq2OpsText(m, ops)
@@ -133,7 +134,7 @@ func TestVerifC15_Expr(t *testing.T) {
 		g := &vq2ExprGen{m: m, cols: cols, maxDepth: rapid.IntRange(2, 4).Draw(t, "maxDepth")}
 		c := vkit.NewCase()
 		defer c.Done()
-		nq := rapid.IntRange(3, 12).Draw(t, "nq")
+		nq := rapid.IntRange(6, 16).Draw(t, "nq")
 		var qs []string
 		desc := func() string { return "schema: " + vq2SchemaText(m) + "\ndata: " + loadText }
 		for i := 0; i < nq; i++ {
